@@ -30,6 +30,8 @@ def main():
                         elif ex != res["export"]:
                             res["nondeterministic_build"] = True
                         res["answers"].append(b.run_history(hist))
+                        if "export_after" not in res:
+                            res["export_after"] = b.export()      # the state the FIRST history ends in
                     except Exception as e:  # noqa
                         res["answers"].append(["build-exc:" + type(e).__name__ + ":" + str(e)[:200]])
                 out.append(res)
